@@ -163,6 +163,16 @@ COMPOSITES.update({
         complex="dynlenfield", count_dop=U8, offset=1,
         structure=dict(params=[V("d", dict(dt="A_BYTEFIELD", dct="leading", bl=4, bitpos=4)),
                                V("t", U8)])))], "counts": [0, 1, 2], "blens": [0, 2]},
+    "env-data": {"params": [SID, V("d", dict(complex="dtc", dt="A_UINT32", bl=24, dtcs=DTCS)),
+                            V("env", dict(complex="envdatadesc", param="d", datas=[
+                                dict(name="common", all=True, params=[V("mileage", U16)]),
+                                dict(name="first", dtcs=[1], params=[V("temp", S8)]),
+                                dict(name="second", dtcs=[0x500, 0xFFFFFF],
+                                     params=[V("volt", U8), V("amp", U8)])])), TAIL]},
+    "env-data-no-common": {"params": [SID, V("d", dict(dt="A_UINT32", bl=8)),
+                                      V("env", dict(complex="envdatadesc", param="d", datas=[
+                                          dict(name="one", dtcs=[1, 2], params=[V("x", U8)]),
+                                          dict(name="nine", dtcs=[9], params=[V("y", U16)])]))]},
     "dtc": {"params": [SID, V("d", dict(complex="dtc", dt="A_UINT32", bl=24, dtcs=DTCS)), TAIL]},
     "dtc-lowhigh": {"params": [SID, V("pre", U8), V("d", dict(complex="dtc", dt="A_UINT32", bl=24,
                                                                 hl=False, dtcs=DTCS))]},
@@ -208,6 +218,11 @@ def gen_dop(sx, d, path, shape, prop):
     nm = path.replace(".", "_").replace("[", "_").replace("]", "")
     if k == "dtc":
         return sx.int(nm, 0, (1 << d["bl"]) - 1)
+    if k == "envdatadesc":
+        out = {}
+        for e in d["datas"]:
+            out.update(gen_params(sx, e["params"], path + "." + e["name"], shape, prop))
+        return out
     if k is None and d["dt"] == "A_BYTEFIELD":
         return sx.bytes(nm, shape.get("blen", 1))
     if k is None:
@@ -273,6 +288,7 @@ def ref_params(p, origin, cursor, params, vals, at_end, env):
                 if prm.get("default") is None:
                     raise odxref.Reject(f"required parameter {nm} missing")
                 v = prm["default"]
+            env.setdefault("journal", {})[nm] = v
             n = ref_dop(p, pos, bitpos, prm["dop"], v, at_end and last, env)
         elif k == "physconst":
             n = ref_dop(p, pos, bitpos, prm["dop"], prm["value"], at_end and last, env)
@@ -333,8 +349,26 @@ def ref_params(p, origin, cursor, params, vals, at_end, env):
     return end
 
 
+def _applicable_env_datas(d, dtc):
+    """reference: the ALL-VALUE environment data (if any) followed by the first one listing dtc"""
+    out = [e for e in d["datas"] if e.get("all")][:1]
+    for e in d["datas"]:
+        if not e.get("all") and s_or(*[dtc == x for x in e.get("dtcs", [])]):
+            out.append(e)
+            break
+    return out
+
+
 def ref_dop(p, pos, bitpos, d, v, at_end, env):
     k = d.get("complex")
+    if k == "envdatadesc":
+        dtc = env["journal"][d["param"]]
+        cur = pos
+        for e in _applicable_env_datas(d, dtc):
+            cur += ref_dop(p, cur, 0, dict(complex="structure", params=e["params"]), v, False, env)
+        p.ensure(cur)
+        env.setdefault("env_applicable", {})[id(d)] = True
+        return cur - pos
     if k == "dtc":
         if not s_or(*[v == x["code"] for x in d["dtcs"]]):
             raise odxref.Reject("trouble code is not described")
@@ -449,6 +483,13 @@ def expected(params, vals):
             out[nm] = prm["value"]
         elif k == "value":
             v = vals.get(nm)
+            if prm["dop"].get("complex") == "envdatadesc":
+                d = prm["dop"]
+                exp = {}
+                for e in _applicable_env_datas(d, vals[d["param"]]):
+                    exp.update(expected(e["params"], v))
+                out[nm] = exp
+                continue
             out[nm] = _exp_dop(prm["dop"], prm.get("default") if v is None else v)
         elif k == "physconst":
             out[nm] = prm["value"]
